@@ -294,8 +294,70 @@ def flag_protocol(b, sym, facts, prims):
     sets = [(i, f) for i, v, f in stores if v == 1]
     clears = [(i, f) for i, v, f in stores if v == 0]
     if not sets:
-        return None
+        return _raii_flag_protocol(b, sym, facts)
     return {"sets": sets, "clears": clears}
+
+
+def _raii_flag_protocol(b, sym, facts):
+    """The same protocol kept by a guard value: a local of a type whose Drop stores `true` into the flag it was given unless its
+    `done` field is set.  Building the guard arms the flag for every way out (error return, dropped future); setting the field
+    (the inlined `complete(self)`) is the clear.  Returns the protocol dict (points are block indexes, as for the explicit form)
+    or None."""
+    for l in range(len(b.locals)):
+        ty = b.local_ty(l).split("<")[0]
+        dp = "<%s as std::ops::Drop>::drop" % ty
+        cand = [p for p in facts.bodies if p.startswith("<" + ty) and p.endswith(" as std::ops::Drop>::drop")]
+        if not cand:
+            continue
+        db = facts.body(cand[0])
+        ds = Sym(db)
+        st = [(i, t) for i, t in db.calls() if t["callee"]["name"] == "store" and "sync::atomic::Atomic" in t["callee"]["path"] and const_val(ds.op(t["args"][1])) == 1]
+        if len(st) != 1:
+            continue
+        tgt = ds.op(st[0][1]["args"][0])
+        if not (tgt[0] == "field" and tgt[1][0] == "arg" and tgt[1][1] == 1):
+            continue
+        flag_field = tgt[2]
+        fs = facts_at(db, ds, facts, st[0][0])
+        done_fields = [f["expr"][2] for f in fs if f["expr"][0] == "field" and f["expr"][1][0] == "arg" and f["expr"][1][1] == 1 and f["val"] is False]
+        if len(done_fields) != 1:
+            continue
+        done = done_fields[0]
+        # constructions of the guard in b (the constructor is a new function, inlined here): flag reference and done = false
+        cons, flagname = [], None
+        holders = set()
+        for i, j, s_ in b.assigns():
+            rv = s_["rv"]
+            if rv.get("agg") == "adt" and rv["adt"].split("<")[0] == ty and not s_["place"]["p"]:
+                v = sym.rvalue(rv)
+                d = dict(v[3])
+                if flag_field in d and done in d and const_val(d[done]) == 0:
+                    cons.append((i, render(d[flag_field])))
+                    flagname = render(d[flag_field])
+                    holders.add(s_["place"]["l"])
+        if not cons:
+            continue
+        # follow whole-value moves of the guard
+        changed = True
+        while changed:
+            changed = False
+            for i, j, s_ in b.assigns():
+                if "use" in s_["rv"] and not s_["place"]["p"]:
+                    q = op_place(s_["rv"]["use"])
+                    if q is not None and not q["p"] and q["l"] in holders and s_["place"]["l"] not in holders:
+                        holders.add(s_["place"]["l"])
+                        changed = True
+        clears = []
+        for i, j, s_ in b.assigns():
+            pl = s_["place"]
+            if pl["l"] in holders and [e.get("f") for e in pl["p"] if isinstance(e, dict)] == [done] and const_val(sym.rvalue(s_["rv"])) == 1:
+                clears.append((i, flagname))
+        # the guard must not be leaked (mem::forget / ManuallyDrop) - then its Drop would not run
+        leaked = [t for _, t in b.calls() if t["callee"]["name"] in ("forget", "leak") or "ManuallyDrop" in t["callee"]["path"]]
+        if leaked:
+            continue
+        return {"sets": cons, "clears": clears, "raii": ty, "drop": db.path}
+    return None
 
 
 def run(facts, R):
@@ -446,7 +508,18 @@ def run(facts, R):
             flag_names = {f2 for _, f2 in fp["sets"]}
             tested = any(f["expr"][0] == "call" and "sync::atomic::Atomic" in f["expr"][1] and f["expr"][1].rsplit("::", 1)[-1] in ("load", "swap")
                          and render(f["expr"][2][0]) in flag_names and f["val"] is False for f in fs)
-            flag_ok = w1 is None and clears_ok and tested and bool(fp["clears"])
+            # ... and the test is made with the writer lock held: a caller that tested the flag first and then waited for the lock
+            # would write after a frame torn by the previous holder
+            loads = [i for i, t in b.calls() if t["callee"]["name"] in ("load", "swap") and "sync::atomic::Atomic" in t["callee"]["path"]
+                     and render(sym.op(t["args"][0])) in flag_names]
+            init_ = definitely_init(b, unwind=False)
+            guards_ = [l for l in range(len(b.locals)) if "MutexGuard<" in b.local_ty(l) and not b.local_ty(l).startswith("std::result::Result")
+                       and not b.local_ty(l).startswith("impl ") and "Poison" not in b.local_ty(l) and "LockResult" not in b.local_ty(l)]
+            under_lock = bool(loads) and all(any(g in init_at_point(b, init_, term_pt(b, i)) for g in guards_) for i in loads)
+            R.check(under_lock, "write-failure-must-poison", fn, "torn-write flag tested under the writer lock",
+                    "the torn-write flag is tested before the writer lock is held: a caller parked on the lock has already passed the test when the holder "
+                    "tears a frame, and appends its own frame after the partial one", b.span, "load(flag) with the writer guard live")
+            flag_ok = w1 is None and clears_ok and tested and bool(fp["clears"]) and under_lock
             R.check(flag_ok, "write-failure-must-poison", fn, "torn-write flag protocol",
                     "flag protocol incomplete: set-before-first-write=%s cleared-only-after-success=%s tested-before-writing=%s"
                     % (w1 is None, clears_ok, tested), b.span, "flag set before the first write, cleared after the last success, tested on entry")
